@@ -158,18 +158,23 @@ class ObjectDomain(EffectDomain):
             for r in cur:
                 if r.kind == "exc":
                     nxt.append(r)
-                elif is_inst(r.value):
-                    got = self._inst_attr(interp, r.value, attr, r.state, fr)
-                    nxt.extend(got if got is not None else [val(TOP, r.state)])
-                elif isinstance(r.value, tuple) and r.value[:1] == ("wobj",):
-                    a = r.state.get(f"obj.{r.value[1]}.{attr}") if r.state.has(f"obj.{r.value[1]}.{attr}") else self.attrs.get(f"{r.value[1]}.{attr}")
-                    nxt.append(val(a if a is not None else ("bound", r.value[1], attr), r.state))
-                elif r.value == ("self",):
-                    nxt.extend(self._root_value_attr(interp, attr, r.state, fr))
-                else:
-                    nxt.append(val(TOP, r.state))
+                    continue
+                got = self.attr_of_value(interp, r.value, attr, r.state, fr)
+                nxt.extend(got if got is not None else [val(TOP, r.state)])
             cur = nxt
         return cur
+
+    def attr_of_value(self, interp, value, attr, st, fr):
+        """``<value>.attr`` for the objects of this model (None: not one of them)."""
+        if is_inst(value):
+            got = self._inst_attr(interp, value, attr, st, fr)
+            return got if got is not None else [val(TOP, st)]
+        if isinstance(value, tuple) and value[:1] == ("wobj",):
+            a = st.get(f"obj.{value[1]}.{attr}") if st.has(f"obj.{value[1]}.{attr}") else self.attrs.get(f"{value[1]}.{attr}")
+            return [val(a if a is not None else ("bound", value[1], attr), st)]
+        if value == ("self",):
+            return self._root_value_attr(interp, attr, st, fr)
+        return None
 
     def _root_value_attr(self, interp, attr, st, fr):
         """Attribute of the analysed object reached through a value (an alias of self handed to a helper object)."""
